@@ -4,7 +4,8 @@
    cases:  c1 <function> <param> <element>...    element = 'L' prefix of the literal | 'H' <class letter> raw bytes
            c2 <text of control file nomail>
            c3 <function answering with a fixed literal>
-           c4 <heloname> <badcmds, one octet> <line>...     wait_for_quit() reading these command lines *)
+           c4 <heloname> <badcmds, one octet> <line>...     wait_for_quit() reading these command lines
+           c5 <scenario> <element>...                       smtp_data() refusing a message: 354, then the error reply of that shape *)
 open M
 
 let show = function
@@ -34,6 +35,10 @@ let model fs = match fs with
       (match literal_model (bytes_of_hex func) with
        | [l] -> "OK " ^ hex_of_bytes l
        | _ -> "NOLITERAL")
+  | "c5" :: _param :: els ->
+      (match smtp_data_model (List.map parse_elem els) with
+       | NoShape -> "NOSHAPE"
+       | Wrote r -> show r)
   | "c4" :: helo :: bad :: lines ->
       show (wait_for_quit (bytes_of_hex helo) (List.map bytes_of_hex lines) (nat_of_int (List.hd (ints_of_hex bad))))
   | _ -> "BADCASE"
@@ -52,8 +57,12 @@ let spec fs obs = match fs, obs with
   | ["c2"; raw], _ when not (file_line_ok raw) -> "pre"
   | ["c2"; raw], "OK" :: lines -> if spec_ok_nomail (bytes_of_hex raw) (List.map bytes_of_hex lines) then "ok" else "bad"
   | ["c3"; func], "OK" :: lines -> if spec_ok_literal (bytes_of_hex func) (List.map bytes_of_hex lines) then "ok" else "bad"
+  | "c5" :: _ :: els, "OK" :: go :: bufs ->
+      let es = List.map parse_elem els in
+      if smtp_data_model es = NoShape then "pre"
+      else if spec_ok_stream (List.map bytes_of_hex (go :: bufs)) && spec_ok_site fN_smtp_data es (List.map bytes_of_hex bufs) then "ok" else "bad"
   | "c4" :: _, "OK" :: bufs -> if spec_ok_stream (List.map bytes_of_hex bufs) then "ok" else "bad"
-  | ("c1" | "c2" | "c3" | "c4") :: _, _ -> "bad"
+  | ("c1" | "c2" | "c3" | "c4" | "c5") :: _, _ -> "bad"
   | _ -> "BADCASE"
 
 let () =
